@@ -410,7 +410,7 @@ DEGENERATE = {
     "x-forwarded-for": [
         "", "[", "]", "[]", '""', ":", ":80", ":8.0", "::", "[:80]", "[]:80", 'a"b', "\x80", "_", "*", ".",
         "1.2.3.4:", "1.2.3.4:x:y", "[::1", "::1]", "]:[", '"\\""', "unknown", "1.2.3.4:80:90", "[1.2.3.4]:80",
-        "\xff\xfe", ":.", ".:", "[.]:1",
+        "\xff\xfe", ":.", ".:", "[.]:1", '" "', '" :80"', '"\t"', " ", '"  "',
     ],
     "x-forwarded-host": [
         "", ":", ":80", "[", "]", "[]", "[]:80", '""', "h:", "::", 'a"b', "\x80", ".", "h7.example:", "h7.example:x",
@@ -425,6 +425,7 @@ DEGENERATE = {
         'secret="x', "for=a=b", 'for=a"b', "for=\x80", 'for="a,b"', "for=_", "FOR=", "for=::1", "for=[::1",
         'for="[::1"', "for=::1]", "host=[", "host=]", 'host="[]:1"', "for=.:", "for=:.", 'for=":8.0"',
         "for=;host=;proto=", "by=:80", "for=1.2.3.4;for=:80", "for=:80;for=1.2.3.4", "host=h:;proto=http",
+        'for=" "', 'for=" :80"', 'for="\t:80"', 'host=" "', 'for="  ";host=h7.example', 'by=" "',
     ],
 }
 
